@@ -150,6 +150,7 @@ func verifDigest(i int) core.Digest {
 // Executor.Exec, the real blobclient cluster client (ReplicateToRemote -> Poll
 // with its exponential backoff) and model remote services.
 func VerifExecOrder() {
+	verif.Option("panic_is_violation", 1) // a panic must never end a path silently
 	ndeps := verif.Len("dependencies", 0, verif.Bound("max_dependencies", 2, 3))
 	w := &verifRemote{
 		maxAccepted:   verif.Bound("max_202_answers", 1, 2),
